@@ -342,10 +342,35 @@ pub fn run_c06(ctx: &Ctx) {
         |c| l3::run_case(c, l3::Prop::C06),
     );
     run_l4_part(ctx, crate::l4::Prop::C06, crate::l4::gen::P { pause: 1, inject: 0, panic: 0, stop: 1, uds: false, max_limit: 3 }, ctx.tier.scale(96, 4), &[("stop-with-held-connections", 0.4), ("graceful-stop", 0.3), ("forced-stop", 0.3)], "a stop was issued while connections were held open");
+    run_c06_signals(ctx);
+}
+
+fn run_c06_signals(ctx: &Ctx) {
+    use crate::sig;
+    let all = sig::all_cases();
+    // quick: one case per signal x {idle, held+released, held+not released}; thorough: all
+    let chosen: Vec<sig::Case> = if ctx.tier == vcore::Tier::Thorough {
+        all
+    } else {
+        all.into_iter().filter(|c| c.held != 2 && !(c.shutdown_timeout_s == 30 && c.sig == sig::Sig::Term) && (c.shutdown_timeout_s == 2 || c.sig != sig::Sig::Term) && (c.shutdown_timeout_s == 30 || c.sig == sig::Sig::Term)).collect()
+    };
+    let total = chosen.len() as u64;
+    ctx.run_enum(
+        Part::new("signals", "the check binary re-executes itself as a server process with signals enabled (1 worker, shutdown_timeout 2 or 30 s); the parent holds 0..2 greeted connections, sends SIGTERM / SIGINT / SIGQUIT, optionally releases the connections 400 ms later, and times the process exit: SIGTERM must not exit before the connections are released or the timeout has elapsed, SIGINT/SIGQUIT must exit within 10 s although connections are held and the timeout is 30 s; enumerated configuration table; non-trivial = a connection was held when the signal arrived", total).shards(6),
+        |shard, n, f: &mut dyn FnMut(&sig::Case) -> bool| {
+            for (i, c) in chosen.iter().enumerate() {
+                if i % n == shard && !f(c) {
+                    return;
+                }
+            }
+        },
+        sig::check_case,
+    );
 }
 
 pub fn replay_c06(ctx: &Ctx, v: &Value) -> i32 {
     match v["part"].as_str().unwrap_or("") {
+        p if p.starts_with("signals") => ctx.replay::<crate::sig::Case>(v, crate::sig::check_case),
         p if p.starts_with("l4") => replay_l4(ctx, v, crate::l4::Prop::C06),
         _ => ctx.replay::<crate::l3::Case>(v, |c| crate::l3::run_case(c, crate::l3::Prop::C06)),
     }
